@@ -1,8 +1,16 @@
 //! Miri-able harness binary: pure crates (compio-buf, compio-io) and the
 //! syscall-free multi-threaded code (executor, SharedFd, AsyncifyPool).
 
+mod c03f;
+mod c03x;
+mod c04;
+mod c06a;
 mod c10;
-mod choose;
+mod c11;
+mod c12;
+mod c13;
+mod c17m;
+pub mod choose;
 
 use vcommon::Args;
 
@@ -11,7 +19,15 @@ fn main() {
     let args = Args::parse();
     match args.cmd.as_str() {
         "noop" => {}
+        "c03f" => c03f::main(&args),
+        "c03x" => c03x::main(&args),
+        "c04" => c04::main(&args),
+        "c06a" => c06a::main(&args),
         "c10" => c10::main(&args),
+        "c11" => c11::main(&args),
+        "c12" => c12::main(&args),
+        "c13" => c13::main(&args),
+        "c17m" => c17m::main(&args),
         other => {
             eprintln!("unknown subcommand {other:?}");
             std::process::exit(3);
